@@ -2,7 +2,7 @@
 REPO ?= /repo
 B ?= build
 CXX = ccache g++
-SAN_DRV ?= -fsanitize=address -fsanitize=signed-integer-overflow,shift,bounds,integer-divide-by-zero,float-cast-overflow -fno-sanitize-recover=undefined
+SAN_DRV ?= -fsanitize=address -fsanitize=signed-integer-overflow,shift,bounds,integer-divide-by-zero,float-cast-overflow -fno-sanitize-recover=all
 SAN_IO ?= -fsanitize=address,undefined -fno-sanitize-recover=undefined
 DEFS = -DNDEBUG -DAMPL_MP_VERIF -DMP_DATE=20240320 -DMP_SYSINFO="\"Linux x86_64\"" -DMP_USE_ATOMIC -DMP_USE_HASH -DMP_USE_UNIQUE_PTR
 INC = -I$(REPO)/include -I$(REPO)/src -I$(REPO)/nl-writer2/include -Isim/core -Isim
